@@ -23,9 +23,14 @@ def run(ctx):
                       "and replacing an intermediate object tells the parent to re-resolve", floor=1)
     ctx.rule("R07.b", "depends model, rebinding: Parameters._update_deps(attribute) unwatches every recorded dynamic watcher of the methods that pass through `attribute` exactly once on the object "
                       "it was installed on, installs watchers for the dependencies as they resolve now, records them, and leaves other methods alone", floor=1)
+    ctx.rule("R07.s", "setter model: Parameter.__set__ interpreted abstractly on every combination (576) of route x constant/readonly x validation outcome x identity x reference mode x watchers x "
+                      "batching: every assignment on an initialized instance re-resolves the dependencies through the assigned parameter, whatever the new value (also None or a plain value), "
+                      "after the store and before the watchers", floor=1)
+    ctx.rule("R07.d", "depends model, path resolution: Parameters._spec_to_obj interpreted for a.x / a.b.x / a.b.c.x / a.b.c.x:bounds / a.b.param with every link of the path in turn holding None: "
+                      "the parameters to watch are exactly one per existing holder along the path (so that attaching an object at ANY level is noticed) plus the leaves iff the whole path is attached", floor=1)
     ctx.rule("R07.c", "every assignment of a path root re-resolves: Parameter.__set__ calls obj.param._update_deps(name) for an instance, after storing the value and before the watchers run", floor=1)
     ctx.not_decided += ["histories longer than one replacement per level (each rebinding starts from the recorded watchers, which R07.b shows are exactly the installed ones: induction)",
-                        "the resolution of a path to objects (_spec_to_obj with intermediate=True): taken as every intermediate parameter followed by the leaves",
+                        "the parsing of a spec string (_parse_dependency_spec, two regular expressions) and method-name dependencies",
                         "paths that stop resolving (None on the path) and async dependent methods (_async_caller)",
                         "that the watcher itself fires once per batch (C05)"]
     ctx.assumptions.append("the grouping key is (object, class, what) as R06.b/R07.b interpret it in _update_deps")
@@ -48,6 +53,8 @@ def run(ctx):
         else:
             ctx.fail("R07.c", st, c, "the setter re-resolves dependencies %s: the new sub-object is not the one resolved, or the method runs before its watchers moved" % (
                 "before the value is stored" if c.lineno < max(s.lineno for s in stores) else "after the watchers ran"), key=st.qualname + "::rebind-order")
+    from checks import setter_model
+    setter_model.report(ctx, "C07", "R07.s")
     from checks import depends_model
     n2, p2 = depends_model.installation(ctx)
     g = ctx.repo.func(P + "Parameters._update_deps")
@@ -57,4 +64,5 @@ def run(ctx):
         ctx.fail("R07.b", g, g.node, "depends model (rebinding): %s (%d problem(s))" % (sub_problems[0], len(sub_problems)), key=g.qualname + "::depends-rebinding")
     else:
         ctx.ok("R07.b", g, g.node, "depends model: after replacing a sub-object the old dynamic watchers are removed from the detached object and new ones installed on the attached one")
+    depends_model.report_resolution(ctx, "R07.d")
     depends_model.report_filter(ctx, "R07.a")
